@@ -263,7 +263,7 @@ func checkRegexEq(o *RegexObl, timeoutMs int) {
 		return
 	}
 	script := fmt.Sprintf("(set-option :timeout %d)\n(declare-const s String)\n(assert (xor (str.in_re s %s) (str.in_re s %s)))\n(check-sat)\n(get-value (s))\n", timeoutMs, lc, ls)
-	for _, sv := range []solverDef{{"z3-5.1.0", "z3-new", []string{"-in"}}, {"z3-4.8.12", "/usr/bin/z3", []string{"-in"}}} {
+	for _, sv := range []solverDef{{"z3-5.1.0", "z3-new", []string{"-in"}, true}, {"z3-4.8.12", "/usr/bin/z3", []string{"-in"}, true}} {
 		ctx, cancel := context.WithTimeout(context.Background(), time.Duration(timeoutMs+2000)*time.Millisecond)
 		out, _ := runSolver(ctx, sv.bin, sv.args, script)
 		cancel()
